@@ -64,8 +64,12 @@ func (c *Ctx) ruleHandle() {
 						}
 						return false
 					})
-					if isNilConst(st.Val) && initOK {
-						rep.ok("R-HANDLE", relName(fn), construct, pos, "stores nil, only on an initialised instance")
+					ra := c.newRO()
+					roOK := fa.allHold(s.Instr, func(s2 *State) bool { return ra.hasROFalse(fa, s2, 0) })
+					if isNilConst(st.Val) && initOK && roOK {
+						rep.ok("R-HANDLE", relName(fn), construct, pos, "stores nil, only on an initialised instance that is not read-only")
+					} else if !roOK {
+						rep.bad("R-HANDLE", relName(fn), construct, pos, "Free zeroes the handle on a path where the read-only flag has not been tested false")
 					} else {
 						rep.bad("R-HANDLE", relName(fn), construct, pos, "Free must store nil and only when the instance is initialised")
 					}
